@@ -852,7 +852,12 @@ def verdict_real(res, cmd, unwritable=(), files=None, stdout_lost=False, stderr_
     # rc == 1
     if nerr == 0:
         return "exit status 1 without an error diagnostic on stderr (%r)" % err[:120]
-    if touched:
+    if touched and stdout_lost and not unwritable:
+        # the failure is the printout that could not be written: only file groups in front of it may have been written
+        exp = [os.path.normpath(x) for x in cmd.expected_writes()]
+        if not (cmd.quiet and any(g["print"] for g in cmd.groups) and all(x in exp for x in touched)):
+            return "exit status 1 (unwritable standard output) but files touched: %r" % touched
+    elif touched:
         exp = [os.path.normpath(x) for x in cmd.expected_writes()]
         bad = [os.path.normpath(x) for x in unwritable]
         # allowed only: earlier groups of the same command, when the failure is a later output that could not be written
